@@ -75,6 +75,7 @@ type MapEntry struct {
 }
 
 type Object struct {
+	born    *Term // absolute guard under which the object was allocated (nil: unconditional)
 	id      int
 	kind    ObjKind
 	typ     types.Type
